@@ -27,7 +27,8 @@
      ( disk disk ) | ( restart disk stats ) | ( zero stats ) | ( restart_broken disk stats ) | ( heal disk )
      client = ( finished status stdout stderr ) | ( fatal ) | ( unsupported ) | ( unhandled )
      outs   = ( bytes ... )
-     disk   = ( res_good res_bad pp_good pp_bad pp_empty )        entry files by what the real decoders say
+     disk   = ( res_good res_bad pp_good pp_bad pp_empty escaped )  entry files by what the real decoders say;
+                                                              escaped = files that appeared OUTSIDE the cache dir
      stats  = ( compile_requests unsupported not_compile not_cacheable executed E H M timeouts read_errors
                 non_cacheable_compilations forced_recaches write_errors writes compilations compile_fails
                 ( not_cached counts, sorted ) 0 )   with E/H/M = ( all ( counts sorted ) ( adv_counts sorted ) ) *)
@@ -183,7 +184,8 @@ Definition enc_disk (st : cstate) : sx :=
        SN (count_if (fun e => match snd e with RUnparse | RBadObj | RBadOut => true | _ => false end) (cs_res st));
        SN (count_if (fun e => match snd e with PGood _ _ => true | _ => false end) (cs_pp st));
        SN (count_if (fun e => match snd e with PUnparse => true | _ => false end) (cs_pp st));
-       SN (count_if (fun e => match snd e with PEmpty => true | _ => false end) (cs_pp st)) ].
+       SN (count_if (fun e => match snd e with PEmpty => true | _ => false end) (cs_pp st));
+       SN 0 ].   (* files created outside the cache directory: never *)
 
 Definition enc_client (c : client_result) : sx :=
   match c with
@@ -206,7 +208,7 @@ Definition enc_result (r : response) : sx :=
 Record mstate := { m_cache : cstate; m_stats : stats; m_broken : bool; m_dead : bool; m_distfail : bool }.
 
 Definition enc_disk_m (m : mstate) : sx :=
-  if m_broken m then SL [SN 0; SN 0; SN 0; SN 0; SN 0] else enc_disk (m_cache m).
+  if m_broken m then SL [SN 0; SN 0; SN 0; SN 0; SN 0; SN 0] else enc_disk (m_cache m).
 
 Definition apply_actions (acts : list action) (s : stats) : stats :=
   fold_left (fun s a => apply_action a s) acts s.
